@@ -1,5 +1,5 @@
 # replay of a bounded stand-in violation (C13): re-run native/c13_tdm.py
 import sys
-print('TDM N=3, 3 time bins, shift=-1: the unrolled circuit addresses modes [(2,), (0, 2), (2,), (0,), (0,), (1, 0), (0,), (1,)]..., a left rotation by -1 per bin gives [(2,), (0, 2), (2,), (0,), (1,), (2, 1), (1,), (2,)]...')
+print('N=[1] bands measured in order [0] timebins=3 shots=2: samples[0,0,1] identifies pulse 1, expected pulse 2 (band 0)')
 print('REPLAY-VIOLATION')
 sys.exit(1)
